@@ -179,6 +179,10 @@ func (r *Run) Finish(coverage map[string]any, assumptions []string) {
 	if len(r.HarnessErrors) > 0 {
 		coverage["harness_errors"] = r.HarnessErrors
 	}
+	if sk := ResourceSkips(); len(sk) > 0 {
+		coverage["exhaustive"] = false
+		coverage["cases_not_run_for_lack_of_memory"] = sk
+	}
 	ev := map[string]any{
 		"property_id": r.ID,
 		"tier":        r.Tier,
